@@ -280,10 +280,10 @@ func (e *Engine) store(st *State, p PtrVal, v Val) {
 		st.log.note(st, p, true)
 	}
 	if len(p.path) == 0 {
-		st.heap.set(p.obj, v)
+		st.hset(p.obj, v)
 		return
 	}
-	st.heap.set(p.obj, navSet(st.hget(p.obj), p.path, v))
+	st.hset(p.obj, navSet(st.hget(p.obj), p.path, v))
 }
 
 // idxVal widens an index / length operand to 64 bits according to the
@@ -1578,7 +1578,7 @@ func (e *Engine) mapUpdate(st *State, mp MapVal, k, v Val) {
 	if pos >= 0 {
 		nv := append([]Val(nil), mo.vals...)
 		nv[pos] = v
-		st.heap.set(mp.obj, MapObj{mo.keys, nv, mo.idx})
+		st.hset(mp.obj, MapObj{mo.keys, nv, mo.idx})
 		return
 	}
 	// appending to slices shared with older versions is safe: older versions
@@ -1595,7 +1595,7 @@ func (e *Engine) mapUpdate(st *State, mp MapVal, k, v Val) {
 		ni[ck] = len(nk) - 1
 		idx = ni
 	}
-	st.heap.set(mp.obj, MapObj{nk, nv, idx})
+	st.hset(mp.obj, MapObj{nk, nv, idx})
 }
 
 func (e *Engine) mapDelete(st *State, mp MapVal, k Val) {
@@ -1613,7 +1613,7 @@ func (e *Engine) mapDelete(st *State, mp MapVal, k Val) {
 					idx[ck] = j
 				}
 			}
-			st.heap.set(mp.obj, MapObj{nk, nv, idx})
+			st.hset(mp.obj, MapObj{nk, nv, idx})
 			return
 		}
 	}
@@ -1636,6 +1636,26 @@ func (e *Engine) mapOrder(st *State, mo MapObj) ([]Val, []Val) {
 			k := append(append([]Val(nil), mo.keys[1:]...), mo.keys[0])
 			v := append(append([]Val(nil), mo.vals[1:]...), mo.vals[0])
 			return k, v
+		}
+	case 4: // all permutations at ONE range site (the st.mapSite-th), insertion order elsewhere
+		if n > 1 {
+			k := st.mapSiteCtr
+			st.mapSiteCtr++
+			if k == st.mapSite && n <= 4 {
+				perms := permutations(n)
+				site := fmt.Sprintf("maporder#%d", st.siteCtr)
+				st.mapSiteCtr-- // undone for the clones' re-execution; redone below
+				c := e.choose(st, site, len(perms))
+				st.mapSiteCtr++
+				st.siteCtr++
+				p := perms[c]
+				k2 := make([]Val, n)
+				v2 := make([]Val, n)
+				for i, j := range p {
+					k2[i], v2[i] = mo.keys[j], mo.vals[j]
+				}
+				return k2, v2
+			}
 		}
 	case 3: // every permutation (n <= 4), chosen by forking
 		if n > 1 && n <= 4 {
@@ -1862,7 +1882,7 @@ func (e *Engine) builtin(st *State, fr *Frame, name string, cc *ssa.CallCommon, 
 			arr := st.hget(sl.obj).(ArrayVal)
 			ne := append([]Val(nil), arr.e...)
 			copy(ne[sl.off+sl.len:], add)
-			st.heap.set(sl.obj, ArrayVal{ne})
+			st.hset(sl.obj, ArrayVal{ne})
 			return SliceVal{sl.obj, sl.off, sl.len + len(add), sl.cap}
 		}
 		cur := e.sliceElems(st, sl)
@@ -1901,7 +1921,7 @@ func (e *Engine) builtin(st *State, fr *Frame, name string, cc *ssa.CallCommon, 
 			arr := st.hget(dst.obj).(ArrayVal)
 			ne := append([]Val(nil), arr.e...)
 			copy(ne[dst.off:dst.off+n], append([]Val(nil), src[:n]...))
-			st.heap.set(dst.obj, ArrayVal{ne})
+			st.hset(dst.obj, ArrayVal{ne})
 		}
 		return ConstBV(64, uint64(n))
 	case "delete":
